@@ -22,10 +22,11 @@ theorem xact_ne_idle (t : State) (a : Nat) {pc : CPc} (h : pc ≠ .idle) : (xact
       | nil => cases cl <;> simp [xact]
 
 theorem cpc_ne_idle (g : CState) (op : COp) (x : Nat) (h : g.pc x ≠ .idle) : cpc g op x ≠ .idle := by
-  rcases cpc_other g op x with e | ⟨k, _, hidle, _⟩ | e
+  rcases cpc_other g op x with e | ⟨k, _, hidle, _⟩ | e | ⟨cl, pend, pend', cur, _, _, _, hnew⟩
   · rw [e]; exact h
   · exact absurd hidle h
   · subst e; simp only [cpc, upd_apply, ↓reduceIte]; exact xact_ne_idle _ _ h
+  · rw [hnew]; simp
 
 theorem killCond_true_false {st : Status} (h : killCond true st = false) : Status.stopping.toNat ≤ st.toNat :=
   (killCond_false h).1 rfl
@@ -39,7 +40,10 @@ theorem exiting_step {g : CState} (h : CInv g) (op : COp) (x : Nat) (hx : Exitin
   · exact .inr (.inl (hkilled x hx))
   · have hlt : x < g.t.n := h.lt_of_status (by intro e; rw [e] at hx; simp [Status.toNat] at hx)
     exact .inr (.inr (.inl (Nat.le_trans hx (hst x hlt))))
-  · rcases cpc_other g op a with e | ⟨k, _, hidle, _⟩ | e
+  · rcases cpc_other g op a with e | ⟨k, _, hidle, _⟩ | e | ⟨cl', pend0, pend', cur', _, hpc0, hs, hnew⟩
+    rotate_right
+    · rw [hpc] at hpc0; cases hpc0
+      exact .inr (.inr (.inr ⟨a, cl, pend', cur, hnew, (sameMembers_mem hs x).mp hmem⟩))
     · exact .inr (.inr (.inr ⟨a, cl, pend, cur, by show cpc g op a = _; rw [e, hpc], hmem⟩))
     · rw [hpc] at hidle; cases hidle
     · subst e
@@ -154,6 +158,7 @@ theorem edge_step {g : CState} (h : CInv g) (op : COp) {p c : Nat} (hc : child g
   cases op with
   | spawn => exact .inl (same _ rfl)
   | begin a k => exact .inl (same _ rfl)
+  | shuffle a p => exact .inl (same _ rfl)
   | setStatus a st =>
     left; show child (applyAct g.t (cact g (.setStatus a st))) p c
     simp only [cact]; split <;> exact same _ rfl
@@ -281,6 +286,7 @@ theorem conc_no_gain {g : CState} (h : CInv g) (op : COp) (z : Nat)
     | link c' p' => simp [cact] at e
     | unlink c' p' => simp [cact] at e
     | begin a' k => simp [cact] at e
+    | shuffle a' p' => simp [cact] at e
     | setStatus a' st => simp only [cact] at e; split at e <;> cases e
     | xstep a' =>
       simp only [cact] at e
